@@ -117,7 +117,7 @@ def judge_pair(case, res):
     for r in orch.invokes(res):
         for n in r.get("ninja", []):
             for a in n.get("anomalies", []):
-                if a["k"].startswith("hb."):
+                if a["k"] == "hb.unordered_access":
                     out.append({"class": a["k"], "detail": {"part": "A", "edge": a.get("edge"), "path": a.get("path"), "owner": a.get("owner")}})
     solo_ok = [s["rc"] == 0 for s in solos]
     if not all(solo_ok):
@@ -453,7 +453,7 @@ def judge_single(case, res):
     for r in orch.invokes(res):
         for n in r.get("ninja", []):
             for a in n.get("anomalies", []):
-                if a["k"].startswith("hb."):
+                if a["k"] == "hb.unordered_access":
                     out.append({"class": a["k"], "detail": {"part": "B", "edge": a.get("edge"), "path": a.get("path")}})
     if lab["base"]["rc"] != 0 or not ins["base"].get("ok"):
         return out + [{"class": "discard", "detail": {"why": "base does not build", "tail": (lab["base"].get("steps_tail") or "")[-300:]}}]
